@@ -115,3 +115,57 @@ theorem childSteps_dup2_target (c : Cfg) (p : Pipes) (sr f d : Nat) (h : SCall.d
   · split at h <;> simp at h
 
 end Spawn
+
+namespace Spawn
+
+/-! ### The placeholder of a relocated status write end is gone before the fork -/
+
+theorem acquire_low_eq (a : Acq) (h1 : a ≠ .relocateStatusW) (h2 : a ≠ .releaseLow) (s : AState) (rs : List SResp) :
+    (acquire a s rs).s.low = s.low := by
+  cases a with
+  | relocateStatusW => exact absurd rfl h1
+  | releaseLow => exact absurd rfl h2
+  | statusPipe => simp only [acquire]; (repeat' split) <;> rfl
+  | cloexecStatusR => simp only [acquire]; split <;> rfl
+  | cloexecStatusW => simp only [acquire]; split <;> rfl
+  | check ok r => rfl
+  | streamPipe i => simp only [acquire, applyStream]
+  | forkStep => simp only [acquire]; (repeat' split) <;> rfl
+
+theorem acquireAll_low_eq (l : List Acq) (hl : ∀ a ∈ l, a ≠ .relocateStatusW ∧ a ≠ .releaseLow) (s : AState) (rs : List SResp) :
+    (acquireAll l s rs).s.low = s.low := by
+  induction l generalizing s rs with
+  | nil => rfl
+  | cons a as ih =>
+    have ha := hl a (by simp)
+    simp only [acquireAll]
+    split
+    · exact acquire_low_eq a ha.1 ha.2 s rs
+    · rw [ih (fun b hb => hl b (by simp [hb]))]; exact acquire_low_eq a ha.1 ha.2 s rs
+
+theorem release_low_none (s : AState) (rs : List SResp) : (acquire .releaseLow s rs).s.low = none ∧ (acquire .releaseLow s rs).fail = none := by
+  simp only [acquire]
+  split
+  · rename_i h; exact ⟨h, rfl⟩
+  · exact ⟨rfl, rfl⟩
+
+/-- **whenever the process is forked, the original of a moved status write end has been closed again**: no copy of
+    the status channel is left on a standard descriptor for the child to inherit -/
+theorem low_released_at_fork (c : Cfg) (rs : List SResp) (h : (acquireAll (stagesOf c) (s0 c) rs).fail = none) :
+    (acquireAll (stagesOf c) (s0 c) rs).s.low = none := by
+  have hsplit : stagesOf c = (stagesOf c).take ((stagesOf c).length - 3) ++ [.releaseLow, .check (!c.nul) (.err EINVAL), .forkStep] := by
+    simp only [stagesOf]
+    by_cases h1 : c.sin = .pipe <;> by_cases h2 : c.sout = .pipe <;> by_cases h3 : c.serr = .pipe <;> simp [h1, h2, h3]
+  rw [hsplit] at h ⊢
+  have h1 := acquireAll_prefix_ok _ _ _ _ h
+  rw [acquireAll_append_ok _ _ _ _ h1]
+  generalize (acquireAll _ (s0 c) rs).s = s1
+  generalize (acquireAll _ (s0 c) rs).rest = rs1
+  simp only [acquireAll, (release_low_none s1 rs1).2]
+  have hrest : ∀ a ∈ [Acq.check (!c.nul) (.err EINVAL), .forkStep], a ≠ .relocateStatusW ∧ a ≠ .releaseLow := by
+    intro a ha; simp only [List.mem_cons, List.not_mem_nil, or_false] at ha; rcases ha with rfl | rfl <;> simp
+  have := acquireAll_low_eq [Acq.check (!c.nul) (.err EINVAL), .forkStep] hrest (acquire .releaseLow s1 rs1).s (acquire .releaseLow s1 rs1).rest
+  simp only [acquireAll] at this
+  rw [this]; exact (release_low_none s1 rs1).1
+
+end Spawn
